@@ -37,6 +37,15 @@ type Expression interface {
 	expressionNode()
 }
 
+// nodeString prints a child expression, tolerating the nil children that the
+// parser leaves behind after a syntax error.
+func nodeString(e Expression) string {
+	if e == nil {
+		return ""
+	}
+	return e.String()
+}
+
 type Comparable interface {
 	// TODO: not sure what is the purpose of this interface.
 	// The only method of this interface is validIfCondition that returns
